@@ -1,5 +1,6 @@
 import KV.Props.C12
 import KV.Hygiene
+import KV.GenConvProofs
 /-! # C04 — successful generation always yields compilable, hygienic Go
 
 Property statements only.  "Compiles" is a verdict of the Go type checker, which Lean does not contain; what
@@ -109,4 +110,42 @@ example : (paramFlags diamondA 1).map (·.map (·.2.2)) = some [false, true, tru
 
 end Hygiene
 
+/-! ## the types the generator spells (`createASTTypeExpr`; model `KV/GenConv.lean`, proofs `KV/GenConvProofs.lean`) -/
+
+/-- every type the generator spells from type information (injector parameters, results, variables) denotes, in the
+    generated file, the type it was spelled from; the local names it gives to imports are fresh in the name pool
+    (no clash with reserved words, the user's package-level identifiers, variables or other imports), and it adds no
+    import the spelled types do not use -/
+theorem C04_types_roundtrip (cur : Nat) (pname : Nat → String) (pool : VP.Pool) (ts : List GConv.Ty) (st' : GConv.St)
+    (es : List GConv.Ex) (hwf : GConv.WFList ts = true)
+    (h : GConv.renderList cur pname { pool := pool, imports := [] } ts = some (st', es)) :
+    GConv.resolveList cur st' es = some ts ∧
+    (∀ p n, st'.imports.lookup p = some n → VP.count pool n = 0 ∧ n ∈ GConv.qualsList es) ∧
+    (∀ p q n, st'.imports.lookup p = some n → st'.imports.lookup q = some n → p = q) := by
+  have hi : GConv.Inv { pool := pool, imports := [] } :=
+    ⟨fun p n hl => by simp [List.lookup] at hl, fun p n hl => by simp [List.lookup] at hl⟩
+  have hi' := GConv.renderList_inv ts _ st' es hi h
+  refine ⟨GConv.renderList_roundtrip ts _ st' es hi hwf h, ?_, ?_⟩
+  · intro p n hl
+    constructor
+    · rcases GConv.renderList_names_fresh ts _ st' es hi h p n hl with h0 | h0
+      · simp [List.lookup] at h0
+      · exact h0
+    · rcases GConv.renderList_no_unused ts _ st' es h p n hl with h0 | h0
+      · simp [List.lookup] at h0
+      · exact h0
+  · intro p q n hp hq
+    have h1 := hi'.2 p n hp
+    have h2 := hi'.2 q n hq
+    rw [h1] at h2
+    exact Option.some.inj h2
+
+/-- spelling a type never fails -/
+theorem C04_types_total (cur : Nat) (pname : Nat → String) (st : GConv.St) (ts : List GConv.Ty) :
+    GConv.renderList cur pname st ts ≠ none :=
+  GConv.renderList_total cur pname st ts
+
 end C04
+
+#print axioms C04.C04_types_roundtrip
+#print axioms C04.C04_types_total
